@@ -2,7 +2,10 @@
 package document
 
 import (
+	"bytes"
 	"encoding/xml"
+	"io"
+	"strings"
 )
 
 // OfficeMath 表示Office数学公式元素
@@ -85,6 +88,14 @@ func (d *Document) AddMathFormula(latex string, isBlock bool) *MathParagraph {
 		Runs: []Run{},
 	}
 
+	// RawXML is written verbatim into the main part: anything that is not a
+	// well-formed OMML fragment (e.g. plain LaTeX text) is carried as math text.
+	if !isWellFormedMathFragment(latex) {
+		var buf bytes.Buffer
+		_ = xml.EscapeText(&buf, []byte(latex))
+		latex = "<m:r><m:t>" + buf.String() + "</m:t></m:r>"
+	}
+
 	// 创建公式内容
 	// 注意：这里使用RawXML来存储公式内容，因为OMML结构复杂
 	// 实际的LaTeX到OMML转换由markdown包的LaTeXToOMML函数完成
@@ -122,4 +133,63 @@ func (p *Paragraph) AddInlineMath(ommlContent string) {
 		},
 	}
 	p.Runs = append(p.Runs, run)
+}
+
+// isWellFormedMathFragment reports whether s can be embedded verbatim inside
+// an m:oMath element: it must tokenise as well-formed XML content and use only
+// namespace prefixes that are bound (m, w, xml, or declared in the fragment).
+func isWellFormedMathFragment(s string) bool {
+	decoder := xml.NewDecoder(strings.NewReader("<m:oMath>" + s + "</m:oMath>"))
+	bound := map[string]bool{"m": true, "w": true, "xml": true}
+	var used []string
+	depth := 0
+	closed := false
+	for {
+		token, err := decoder.RawToken()
+		if err == io.EOF {
+			break
+		}
+		if err != nil || closed {
+			return false
+		}
+		switch t := token.(type) {
+		case xml.StartElement:
+			depth++
+			used = append(used, t.Name.Space)
+			for _, attr := range t.Attr {
+				if attr.Name.Space == "xmlns" {
+					bound[attr.Name.Local] = true
+				} else if attr.Name.Space != "" {
+					used = append(used, attr.Name.Space)
+				}
+			}
+		case xml.EndElement:
+			depth--
+			if depth < 0 {
+				return false
+			}
+			if depth == 0 {
+				closed = true
+			}
+		case xml.ProcInst, xml.Directive:
+			return false
+		}
+	}
+	if depth != 0 || !closed {
+		return false
+	}
+	for _, prefix := range used {
+		if prefix != "" && !bound[prefix] {
+			return false
+		}
+	}
+	// Token() (unlike RawToken) also verifies that start and end tags match
+	decoder = xml.NewDecoder(strings.NewReader("<m:oMath>" + s + "</m:oMath>"))
+	for {
+		if _, err := decoder.Token(); err == io.EOF {
+			return true
+		} else if err != nil {
+			return false
+		}
+	}
 }
